@@ -10,7 +10,17 @@ RTRB = 'rtrb 0.3 is a linearizable SPSC FIFO: values accepted by Producer::push 
 LOCK = 'collector cycles are mutually exclusive (handle_commands always runs under GLOBAL_COLLECTOR.lock(); parking_lot trusted)'
 TLS = 'COMMAND_SENDER is thread-local: only its owner thread calls Sender::send/force_send'
 
+LOCAL_ALL = '*'
+IDS_NONZERO = 'SpanId::next_id() returns a non-zero id (assumed in units/common/ids.rs; examined on the real next_id by the C02 Kani harness)'
+NOW = 'fastant::Instant::now() never returns Instant::ZERO (ZERO is the "not finished" marker)'
+STD = 'std wrappers in units/common/core.rs (props_extend = get_or_insert_with+extend+map(into), Option::filter, into_cow) behave as their std documentation says'
+
 PROPS = {
+    'C10': {
+        'verus': [('local', '*')],
+        'kani': [],
+        'assumptions': [IDS_NONZERO, NOW, STD, 'guards are !Send (type level: they hold an Rc) so a scope cannot leave its thread'],
+    },
     'C04': {
         'verus': [('spsc', ['Sender::force_send', 'Sender::send', 'bounded', 'Receiver::try_recv'])],
         'kani': [],
